@@ -52,6 +52,11 @@ class Refuse(Exception):
     pass
 
 
+def _san(t):
+    """a refusal reason inside a Coq comment: no comment brackets, no quotes (a quote starts a string even inside a comment)"""
+    return t.replace("*", "x").replace("(", "[").replace(")", "]").replace('"', "'")
+
+
 def dump(stmts):
     return [ast.dump(s) for s in stmts]
 
@@ -429,7 +434,7 @@ def main():
             + Helper(fns["_search_helper"]).run() + "End Gen.\n"
     except Refuse as r:
         refused = str(r)
-        text = HEADER + f"(* REFUSED by the translator: {refused[:160]} - the hand model stands in *)\n" + FALLBACK
+        text = HEADER + f"(* REFUSED by the translator: {_san(refused[:160])} - the hand model stands in *)\n" + FALLBACK
     try:
         old = open(out_path).read()
     except FileNotFoundError:
